@@ -1,11 +1,12 @@
 package main
 
 import (
-	"runtime/pprof"
 	"encoding/json"
 	"flag"
 	"fmt"
 	"os"
+	"runtime/pprof"
+	"strconv"
 	"strings"
 )
 
@@ -66,6 +67,17 @@ func main() {
 		}
 		if *vecStr != "" {
 			cfg.Workers = 1
+			cfg.SingleVec = []int64{}
+			for _, f := range strings.Split(*vecStr, ",") {
+				if f = strings.TrimSpace(f); f != "" && f != "-" {
+					n, err := strconv.ParseInt(f, 10, 64)
+					if err != nil {
+						fmt.Fprintln(os.Stderr, "bad -vec:", err)
+						os.Exit(2)
+					}
+					cfg.SingleVec = append(cfg.SingleVec, n)
+				}
+			}
 		}
 		hr := Explore(env, h, cfg)
 		o.Results = append(o.Results, hr)
